@@ -1,5 +1,6 @@
 import Spine.TeardownKeys
 import Spine.TeardownKeysAgree
+import Spine.TeardownKeysAgreeEnt
 /-!
 # C10 — the all-and-only clauses as a FRAME theorem over identity keys, the removal events, the resolution
 
@@ -162,6 +163,24 @@ theorem c10k_agrees_with_registry_model (F : Facts) (hF : F.ok = true) (s : St) 
 example : ((abs w0).subs.map fun e => (e.peer, e.cEnt, e.cFeat)) = [(1, [1], 1), (2, [1], 1), (1, [1, 1], 1)] ∧
     (abs (drop Facts.pinned w0 1).1).binds ≠ (Reg.removePeer Reg.Cfg.clean (abs w0) 1).binds ∧
     (abs (drop Facts.pinned w0 1).1).binds = (Reg.removePeer {} (abs w0) 1).binds := by decide
+
+/-- Cross-model agreement, ENTITY removal (the device half is the theorem above): in every state of the invariant, for
+    every choice of comparisons that names peer and entity, and for EVERY connection and entity address ([0], unknown
+    entities, unknown connections included), one removal entry of the key model projects to `Reg.removeEntity` of the
+    repaired one-number model — subscriptions, bindings, and the known entities of every peer. -/
+theorem c10k_entity_agrees_with_registry_model (F : Facts) (hF : F.ok = true) (s : St) (hs : Inv s) (k : Nat) (ent : List Nat) :
+    (abs (dropEntity F s k ent).1).subs = (Reg.removeEntity Reg.Cfg.clean (abs s) k ent).subs ∧
+    (abs (dropEntity F s k ent).1).binds = (Reg.removeEntity Reg.Cfg.clean (abs s) k ent).binds ∧
+    (∀ q, (abs (dropEntity F s k ent).1).bare q = (Reg.removeEntity Reg.Cfg.clean (abs s) k ent).bare q) :=
+  dropEntity_agrees_reg F hF s hs k ent
+
+/-- non-vacuity: the removal of [1] of connection 1 in the example world takes one subscription and one binding on both
+    sides and leaves [0], [1,1] known; the pinned comparisons do NOT project to the repaired registry model -/
+example : ((Reg.removeEntity Reg.Cfg.clean (abs w0) 1 [1]).subs.map fun e => (e.peer, e.cEnt)) = [(2, [1]), (1, [1, 1])] ∧
+    ((Reg.removeEntity Reg.Cfg.clean (abs w0) 1 [1]).binds.map fun e => (e.peer, e.cEnt)) = [(2, [1])] ∧
+    (Reg.removeEntity Reg.Cfg.clean (abs w0) 1 [1]).bare 1 = [[0], [1, 1]] ∧
+    (abs (dropEntity Facts.head w0 1 [1]).1).bare 1 = [[0], [1, 1]] ∧
+    (abs (dropEntity Facts.pinned w0 1 [1]).1).binds ≠ (Reg.removeEntity Reg.Cfg.clean (abs w0) 1 [1]).binds := by decide
 
 /-! ## what the comparisons must provide -/
 
